@@ -9,6 +9,8 @@ import contracts.ttp  # noqa: F401
 import bounded.ttp_errors  # noqa: E402
 import bounded.ttp_plan  # noqa: E402
 import bounded.control  # noqa: E402
+import bounded.packing_validate  # noqa: E402
+import bounded.qap  # noqa: E402
 import contracts.control  # noqa: E402
 import bounded.bl_reference  # noqa: E402
 import bounded.objectives_oracle  # noqa: E402
@@ -119,6 +121,28 @@ PLANS["C16"] = Plan(
     assumptions=["min_ann controllers (iterative search): bounded stand-in only", "predefined controllers: not covered"],
 )
 
+PLANS["C04"] = Plan(
+    "C04", "exploration",
+    bounded=[bounded.packing_validate.harness],
+    explanation="bounded stand-in only (PackingSpace.validate uses set/Counter/dict iteration and numpy text parsing, which the "
+                "VC generator does not model yet): validate raises iff an independent oracle of the feasibility definition "
+                "rejects, on decoder outputs and on 20 corruption classes generated from the clauses of that definition; "
+                "from_str round trip and rejection of corrupt text",
+    assumptions=["not a proof: finite sample of instances and corruptions (counts in coverage)"],
+)
+
+PLANS["C09"] = Plan(
+    "C09", "other",
+    functions=[QO + ":_evaluate"],
+    bounded=[bounded.qap.harness],
+    explanation="proved: _evaluate == sum_{i,j} flows[i,j] * distances[x[i],x[j]] (recursive spec qsum/qrow) for every pair of "
+                "non-negative matrices, every index vector in range and every storage dtype up to int64/uint32, all "
+                "intermediate values within int64. bounded: QAPLIB text loading under arbitrary wrapping (incl. lines straddling "
+                "the two matrices), value within [lower_bound, upper_bound] for all n! permutations, n <= 6",
+    assumptions=["A5 rearrangement inequality for trivial_bounds (numpy sort/multiply/sum, external): bounded only",
+                 "numba keeps the int64 accumulator for unsigned element types (typing observed in the design round)"],
+)
+
 PLANS["C14"] = Plan(
     "C14", "proof",
     functions=[E1 + ":__move_down", E1 + ":__move_left", E1 + ":_decode",
@@ -156,6 +180,17 @@ PLANS["C05"] = Plan(
 
 
 META = {
+    "C09": {"text": "objective kernel proved equal to the flow-distance double sum without overflow for all matrices/permutations/"
+                    "dtypes; parser and bounds clauses decided by a bounded harness (random wrappings, all permutations n <= 6)",
+            "note": "level 'other': proof for the kernel, bounded for text parsing (string operations) and for the bound "
+                    "computation (numpy library calls + rearrangement inequality)",
+            "technique": "contract-based deductive verification (nested-loop invariants over recursive sums) + bounded monitor"},
+    "C04": {"text": "bounded: validate vs. an independent feasibility oracle on generated feasible packings and on corruptions "
+                    "derived clause by clause from the feasibility definition (both directions), text round trip; labelled "
+                    "bounded, nothing counted as proved",
+            "note": "exploration level: the contract 'returns normally iff Feasible' is monitored at run time on the real method; "
+                    "a deductive treatment needs set/Counter models (DESIGN.md C04) and is not built yet",
+            "technique": "run-time contract monitor (bounded stand-in) with clause-derived corruption classes"},
     "C16": {"text": "all polynomial, partially-linear, peak and ANN controller kernels (generated architectures as programs) and "
                     "the three system-equation kernels proved equal to their documented formulas over the reals for every "
                     "state/parameter vector; inputs never written; min_ann: bounded stand-in",
